@@ -17,6 +17,16 @@ def gen_cases(sch, tier, rng):
             ops = [("qr", None, histgen.gen_gqr(rng, 1000, 5, full=True)), ("mm", None, histgen.gen_gmm(rng, 1000, 5, full=True)),
                    ("aec", None, histgen.gen_gaec(rng)), ("qr", None, histgen.gen_gqr(rng, 1000, 5)), ("aec", None, histgen.gen_gaec(rng))]
             cases.append(p_hist.mk_case(sch, "m%d" % n, {"pre": pre, "ops": ops}, "single-bit")); n += 1
+    # the documented way to change the hints in force: set_active_block_parameters(i); write_block() - issued on a fresh exporter, in
+    # the middle of a block, right after an automatic flush, right after an explicit write_block() and right after an exporting rotation
+    full = (A, S, 3, 3)
+    for k, m in enumerate(masks):
+        for pos in (range(5) if tier != "quick" else [k % 5]):
+            pre = [1, 0, None, [histgen.gen_bp(sch, rng, masks=full, tps=1000, maxi=2), histgen.gen_bp(sch, rng, masks=m, tps=1000, maxi=2)]]
+            q = lambda: ("qr", None, histgen.gen_gqr(rng, 1000, 5, full=True))
+            lead = [[], [q()], [q(), q()], [q(), ("wb",)], [q(), ("rot", True)]][pos]
+            ops = lead + [("setbp", 1), ("wb",), q(), ("mm", None, histgen.gen_gmm(rng, 1000, 5, full=True)), ("aec", None, histgen.gen_gaec(rng)), q()]
+            cases.append(p_hist.mk_case(sch, "s%d" % n, {"pre": pre, "ops": ops}, "switch-p%d" % pos)); n += 1
     for i in range(150 if tier == "quick" else 5000):
         h = histgen.gen_history(sch, rng, nops=rng.choice([5, 15, 30]))
         cases.append(p_hist.mk_case(sch, "r%d" % i, h, "random-masks"))
@@ -27,6 +37,7 @@ def run(ctx):
     diffs, cases = p_hist.run_histories(ctx, cases, batch=20)
     return p_hist.finish(ctx, "C04", cases, diffs,
         "records with every member present x {all hints, none, each of the 18 query/response bits alone cleared and alone set, each of the 17 "
-        "signature bits alone cleared and alone set, the 4 RR-hint and 4 other-data settings} plus random masks over random histories. "
+        "signature bits alone cleared and alone set, the 4 RR-hint and 4 other-data settings} plus the same masks as a SECOND parameter set switched to (set_active_block_parameters + write_block) on a fresh exporter / mid-block / "
+        "right after an automatic flush / after an explicit write_block / after an exporting rotation, plus random masks over random histories. "
         "Independent parse of every output: members present per item vs the mask in force, every entry of every block table referenced by a "
         "stored item, address events / malformed messages only with their bit, the preamble states the masks applied", related=())
